@@ -4,7 +4,7 @@
    encoder writes for a decoded value are checked by the model to be a well-formed message of that value at the Rust
    type's Candid type (c01.wf), and native decoding is compared with the specification's decoder (c08.native). *)
 From Coq Require Import List NArith ZArith.
-From CandidV Require Import model.Leb model.Hash model.Wire proofs.LebProofs proofs.SlebProofs proofs.HashProofs proofs.WireProofs.
+From CandidV Require Import model.Leb model.Hash model.Wire model.De proofs.LebProofs proofs.SlebProofs proofs.HashProofs proofs.WireProofs proofs.CoerceProofs proofs.DeFast proofs.DeSpec.
 Open Scope N_scope.
 
 (* M^-1 (M v) = v with nothing left unread but the rest: values of every type, any depth *)
@@ -12,6 +12,15 @@ Theorem C01_value_roundtrip : forall v E t out f rest,
   has_type E v t = true -> enc_val E v t = Some out -> (vdepth v < f)%nat ->
   dec_val f E t (out ++ rest) = Ok (v, rest).
 Proof. exact dec_enc_val. Qed.
+
+(* the same round trip THROUGH THE MODEL OF THE REAL DECODER (De.v: single pass, fast paths for primitive vectors, big numbers
+   and blobs, field merge, cost accounting -- compared with IDLDeserialize on values and costs on every run): what M writes
+   for v at t, the decoder reads back as v at t, with nothing but the rest left, in either cost mode, for any label spelling *)
+Theorem C01_decoder_roundtrip : forall v E t out f rest u lc c,
+  wf_env E = true -> ty_closed E t = true ->
+  has_type E v t = true -> enc_val E v t = Some out -> (vdepth v < f)%nat ->
+  exists c', de f E u HV lc t t (out ++ rest) nolim c = (c', Ok (v, rest)).
+Proof. exact de_roundtrip. Qed.
 
 (* the raw little-endian bulk write / read of primitive vectors *)
 Theorem C01_little_endian : forall k n, n < 256 ^ N.of_nat k -> le_val (le_bytes k n) = n.
@@ -37,6 +46,7 @@ Example C01_ex : enc_val [] (VRec [(0, VNat 300); (1, VOpt (Some (VText [104; 10
 Proof. vm_compute. split; reflexivity. Qed.
 
 Print Assumptions C01_value_roundtrip.
+Print Assumptions C01_decoder_roundtrip.
 Print Assumptions C01_little_endian.
 Print Assumptions C01_nat_roundtrip.
 Print Assumptions C01_int_roundtrip.
